@@ -357,6 +357,18 @@ func checkC14(c *Ctx, r *Report) {
 		li := analyseLocks(c, "", name)
 		c14Type(c, r, li, name, false)
 	}
+	// R14.5: what a caller receives must not alias memory the client reuses for the next call:
+	// do() returns a fresh copy of a function-local receive buffer
+	clientLoopItems(c, r, "R7.2", "R14.5", "the frame handed on is a copy of received[0:total]")
+	for _, name := range []string{"Client", "SerialClient"} {
+		ci := analyseClient(c, name, name == "SerialClient")
+		local := ci.problem == "" && ci.recvBuf != nil && ci.recvBuf.fresh
+		if local {
+			r.ok("R14.5", fnID(ci.do), "the receive buffer is local to the call (not shared client state)", c.pos(ci.do.Pos()), true)
+		} else {
+			r.fail("R14.5", fnID(ci.do), "the receive buffer is not a local of do(): replies of different calls can share memory", c.pos(ci.do.Pos()), ci.problem, "shared-receive-buffer")
+		}
+	}
 	r.assumption("sync.RWMutex semantics: exclusive sections are mutually exclusive with all others; the transport value's own methods need not be thread safe because they are only called under the exclusive lock")
 	r.assumption("configuration-time writes (constructors, option functions) happen before the client is shared")
 }
